@@ -427,18 +427,21 @@ def run(ctx):
 
     reported = {}
     n_viol = 0
+    n_anom = 0
     by_name = {s["name"]: s for s in scs}
 
     def report(sig, what, rep):
         nonlocal n_viol
         n_viol += 1
-        if reported.get(sig, 0) < 2:
+        if reported.get(sig, 0) < 1 and len(reported) < 6:
             reported[sig] = reported.get(sig, 0) + 1
             ctx.violation(sig, what, rep)
 
     for tr in traces:
         for a in tr.get("anomalies") or []:
-            ctx.tie_broken("harness anomaly", "%s: %s" % (tr["name"], a))
+            n_anom += 1
+            if n_anom <= 2:
+                ctx.tie_broken("harness anomaly", "%s: %s" % (tr["name"], a))
         for sig, what in scenario_oracle(tr):
             report(sig, "%s: %s" % (tr["name"], what), {"object": "internal/net.Client + ProtoServer", "scenario": by_name.get(tr["name"]),
                                                          "events": [e for e in tr["events"] if e["k"] != "snap"][:80]})
